@@ -265,8 +265,6 @@ def requests(draw, store, with_options=True, full_line=False, as_int=False):
                 for sub in (t[:-1], t[1:], t[:1], t[-1:]):
                     if sub and not sub.startswith("0") and int(sub) not in ports and 0 < int(sub) < 40000:
                         cands.append(sub)
-                if e["addr"] != t and e["port"] not in ports:
-                    cands.append(t)
         if cands:
             return draw(st.sampled_from(sorted(set(cands))))
         kind = "absent"
